@@ -649,6 +649,8 @@ int process_patch(const Options& options)
                 const auto reject_file = reject_path(options, output_file);
                 out << " -- saving rejects to file " << reject_file;
 
+                // The output file may be in a directory which does not exist (yet), if nothing could be written to it.
+                ensure_parent_directories(reject_file);
                 File file(reject_file, mode | std::ios::trunc);
                 tmp_reject_file.write_entire_contents_to(file);
             }
